@@ -80,6 +80,17 @@ def posToSlope : List (α × α) → List (α × α)
     if q.1 = p.1 then posToSlope tl
     else (p.1, (q.2 - p.2) / (q.1 - p.1)) :: posToSlope tl
 
+/-- `pos_to_slope_interp` as it was before /repo 9ea345a (no skip): a zero-width segment divides
+    `(y1 - y0) / 0` — ZeroDivisionError for Python floats, a NaN slope (hence NaN ordinates in the
+    sum) for numpy floats; both are `none` here.  Kept as the regression witness
+    `C09.old_posToSlope_counterexample`. -/
+def posToSlopeOld : List (α × α) → Option (List (α × α))
+  | [] => some []
+  | [p] => some [(p.1, 0)]
+  | p :: tl@(q :: _) =>
+    if q.1 = p.1 then none
+    else (posToSlopeOld tl).map fun r => (p.1, (q.2 - p.2) / (q.1 - p.1)) :: r
+
 /-- the loop of `slope_to_pos_interp`, `y0 = output[-1][1]` carried along -/
 def slopeToPosAux (y0 : α) : List (α × α) → List (α × α)
   | [] => []
